@@ -7,6 +7,7 @@ import (
 	"go/token"
 	"go/types"
 	"math/big"
+	"sort"
 	"strings"
 
 	"golang.org/x/tools/go/ssa"
@@ -119,31 +120,30 @@ func (c *EvalCtx) lookupLocal(name string) (Val, bool) {
 			}
 		}
 	}
-	for v, a := range fr.addrs {
-		al, ok := v.(*ssa.Alloc)
-		if !ok || al.Comment != name {
-			continue
+	var cands []*ssa.Alloc
+	for v := range fr.addrs {
+		if al, ok := v.(*ssa.Alloc); ok && al.Comment == name {
+			cands = append(cands, al)
 		}
-		_ = a
+	}
+	sort.Slice(cands, func(i, j int) bool {
+		if cands[i].Pos() != cands[j].Pos() {
+			return cands[i].Pos() < cands[j].Pos()
+		}
+		return cands[i].Name() < cands[j].Name()
+	})
+	for _, al := range cands {
 		if obj != nil && al.Pos() == obj.Pos() {
 			best = al
 			break
 		}
-		if best == nil || al.Pos() > best.Pos() {
-			if obj == nil {
-				best = al
-			}
-		}
 	}
-	if best == nil {
-		// parameters are copied into allocs named like them; fall back to any alloc with the name
-		for v := range fr.addrs {
-			if al, ok := v.(*ssa.Alloc); ok && al.Comment == name {
-				if best == nil || al.Pos() < best.Pos() {
-					best = al
-				}
-			}
-		}
+	if best == nil && obj == nil && len(cands) > 0 {
+		best = cands[len(cands)-1]
+	}
+	if best == nil && len(cands) > 0 {
+		// parameters are copied into allocs named like them; fall back to the first alloc with the name
+		best = cands[0]
 	}
 	if best == nil {
 		return Val{}, false
